@@ -35,7 +35,7 @@ VarSet(c) == {c.vars[i] : i \in 1..Len(c.vars)}
 InitialM(c) ==
     [cfg |-> {}, hist |-> [h \in Histories(c) |-> {}], inited |-> {},
      dm |-> [n \in VarSet(c) |-> [def |-> FALSE, v |-> 0]],
-     iq |-> <<>>, eq |-> <<>>, atoms |-> <<>>, ok |-> TRUE, topfinal |-> FALSE]
+     iq |-> <<>>, eq |-> <<>>, atoms |-> <<>>, ok |-> TRUE, topfinal |-> FALSE, condErr |-> {}]
 
 InitFor(i) ==
     /\ ci = i
@@ -220,6 +220,15 @@ EnvCancel ==
     /\ flags' = flags \cup {"CANCELLED"}
     /\ m' = [m EXCEPT !.eq = Append(@, Ev(<<>>))]     \* the empty event that unblocks step()
     /\ UNCHANGED <<ci, life, ret, rootEntries>>
+
+\* C14: serialize() at a stable point and deserialize() into a fresh interpreter for the same
+\* document.  Every abstract variable is unchanged -- configuration, history, initialised
+\* data, data values, pending external events.  Only the "stable configuration announced"
+\* flag is not part of the snapshot: the resumed interpreter announces it once more.
+EnvResume ==
+    /\ life = "running" /\ "SPONT" \notin flags /\ m.iq = <<>> /\ "TOPFINAL" \notin flags
+    /\ flags' = flags \ {"STABLE"}
+    /\ UNCHANGED <<ci, life, m, ret, rootEntries>>
 
 (***************************************************************************)
 (* Properties of the specification itself (checked by MC_Step) and of       *)
